@@ -6,6 +6,7 @@ checks={
  'C01':dict(text="Every schedule (preemption- and tick-bounded DFS over real goroutines under a controlled scheduler) of 3-5 concurrent requests on one key through the real handler chain, with virtual-clock expiry offered before every clock read; monitors: never two fetches of one key in flight, at most one fetch per lifetime, label truth.", ref="4/C01", tech="stateless model checking of the implementation: controlled scheduler + preemption-bounded DFS (CHESS style)"),
  'C02':dict(text="Every bounded schedule x every sequence of fetch outcomes (cacheable/uncacheable/error/timeout/panic) of concurrent requests (+purge) on one key; deadlock/livelock detector, entry never left fetching, no parked channel, epilogue requests served.", ref="4/C02", tech="stateless model checking: controlled scheduler + bounded DFS with data-choice points; deadlock detection"),
  'C07':dict(text="BFS over timed request histories per hit-for-pass configuration against the entry specification, plus every bounded schedule of concurrent requests during and right after the period (never queued; single probe).", ref="4/C07", tech="explicit-state BFS over event histories on the real code (replay) + controlled-scheduler DFS"),
+ 'C18':dict(text="BFS over requests/purges (by cache name, all caches, absent cache, absent key)/expiry/restart on two caches with and without a store through the real admin purge handler against per-(cache,key) specifications and the store's key set; plus every bounded schedule of a purge racing an in-flight fetch with a waiter followed by later requests.", ref="4/C18", tech="explicit-state BFS over event histories on the real code + controlled-scheduler DFS"),
 }
 notes={}
 m={"version":1,
